@@ -53,6 +53,10 @@ func h3Short(vt *vhT, s *ShortNonceHash, text string, mintedAt int64, kind strin
 		vt.Obs("bad")
 		vt.Stat("snv." + kind + ".bad")
 	}
+	// C03 monitor: a nonce minted by ANOTHER instance is not this instance's (chance collision of >= 8 MAC bytes aside)
+	if kind == "foreign" && err == nil && s.hmacLen >= 8 {
+		vt.Alarm("nonce-foreign-accepted", "short nonce hmacLen=%d minted by another instance was accepted", s.hmacLen)
+	}
 	// C03 monitor for unaltered nonces: accepted iff stamped at most 60 whole minutes ago
 	if kind == "minted" {
 		age := now/60 - mintedAt/60
@@ -120,6 +124,9 @@ func TestVerifH3(t *testing.T) {
 			text, _ := s.Generate()
 			minted := time.Now().Unix()
 			foreign, _ := other.Generate()
+			if len(s.key) < 16 || string(s.key) == string(other.key) {
+				vt.Alarm("nonce-key-not-random", "two ShortNonceHash instances: key lengths %d/%d, equal=%v", len(s.key), len(other.key), string(s.key) == string(other.key))
+			}
 			h3Short(vt, s, text, minted, "minted")
 			h3Short(vt, s, foreign, minted, "foreign")
 			for _, mu := range h3Mutations(text, b36, rng, 20) {
@@ -163,8 +170,14 @@ func TestVerifH3(t *testing.T) {
 		text, _ := n.Generate()
 		minted := time.Now().UnixMilli()
 		foreign, _ := o.(*NonceHash).Generate()
+		if ok := o.(*NonceHash); len(n.key) < 16 || string(n.key) == string(ok.key) {
+			vt.Alarm("nonce-key-not-random", "two NonceHash instances: key lengths %d/%d, equal=%v", len(n.key), len(ok.key), string(n.key) == string(ok.key))
+		}
 		h3Long(vt, n, text, minted, "minted")
 		h3Long(vt, n, foreign, minted, "foreign")
+		if n.Validate(foreign) == nil {
+			vt.Alarm("nonce-foreign-accepted", "long nonce minted by another instance was accepted")
+		}
 		for _, mu := range h3Mutations(text, "0123456789abcdef", rng, 40) {
 			h3Long(vt, n, mu, minted, "mutated")
 		}
